@@ -82,6 +82,16 @@ type RowD struct {
 	Only string
 }
 
+// RowE: several date columns, each in its own declared format; month-first and day-first render
+// different dates as the same text, so a column must be read in ITS format.
+type RowE struct {
+	US      time.Time `format:"01/02/2006"`
+	EU      time.Time `format:"02/01/2006"`
+	Compact time.Time `format:"20060102"`
+	Minute  time.Time `format:"2006-01-02 15:04"`
+	Plain   time.Time
+}
+
 // ---- generators ----
 
 var alphabet = []rune{'a', 'b', 'Z', '0', ',', ',', '"', '"', '\n', '\r', ' ', ' ', '\t', ';', '\'', '\\', '.', 'é', '漢', ' ', '#', '=', '-'}
@@ -694,6 +704,18 @@ func props() []engine.AnyProp {
 		}),
 		csvProp("RowC(times,renamed headers)", func(t *rapid.T, ex *int) RowC {
 			return RowC{When: genTime(t, "when", false), Day: genTime(t, "day", true), Name: str(t, "name", ex), V: F64(genF64(t, "v")), Note: str(t, "note", ex)}
+		}),
+		csvProp("RowE(dates in several declared formats)", func(t *rapid.T, ex *int) RowE {
+			// a small pool of days with day <= 12, so that the same text turns up in both the
+			// month-first and the day-first column with different meanings
+			day := func(l string) time.Time {
+				if rapid.IntRange(0, 3).Draw(t, l+"_any") == 0 {
+					return genTime(t, l, true)
+				}
+				return time.Date(2023, time.Month(rapid.IntRange(1, 4).Draw(t, l+"_m")), rapid.IntRange(1, 4).Draw(t, l+"_d"), 0, 0, 0, 0, time.UTC)
+			}
+			m := genTime(t, "minute", false)
+			return RowE{US: day("us"), EU: day("eu"), Compact: day("compact"), Minute: m.Truncate(time.Minute), Plain: genTime(t, "plain", false)}
 		}),
 		csvProp("RowD(single column)", func(t *rapid.T, ex *int) RowD {
 			s := str(t, "only", ex)
